@@ -359,7 +359,10 @@ class V4Map(FeatureNormalizer):
     def fill_deriv_(self, dfdx, dfdy, x):
         i, j = self.i, self.j
         tmp = np.exp(self.gamma * (x[i] - x[j]))
-        tmp = dfdy * self.gamma * tmp / (1 + tmp) ** 2
+        # sig * (1 - sig) instead of tmp / (1 + tmp)**2, which is inf / inf
+        # once exp overflows
+        sig = 1 / (1 + tmp)
+        tmp = dfdy * self.gamma * sig * (1 - sig)
         dfdx[i] -= tmp
         dfdx[j] += tmp
 
